@@ -275,7 +275,7 @@ pub fn run(ctx: &Ctx, st: &mut Stats) {
     let time_pics = pics(st, TIME_PICS);
     let ff_pics = pics(st, FF_PICS);
     // (a) all dates x every date token spelling, on Date
-    let stride = ctx.tier.pick(40_009, 13, 1);
+    let stride = ctx.tier.pick(40_009, ctx.q(13, 1), 1);
     let dp = &date_pics;
     ctx.par(st, "(a) Date: all dates x date-token spellings", true, 0, (N_DAYS as i64 + stride - 1) / stride, |st, i, _| {
         let v = v_date(MIN_DAY + (i * stride) as i32);
@@ -305,7 +305,7 @@ pub fn run(ctx: &Ctx, st: &mut Stats) {
         }
     });
     // strided on Timestamp / OracleDate
-    let s2 = ctx.tier.pick(80_021, 97, 11);
+    let s2 = ctx.tier.pick(80_021, ctx.q(97, 29), 11);
     ctx.par(st, "(a) Timestamp,OracleDate: strided dates x date-token spellings", true, 0, N_DAYS as i64 / s2, |st, i, _| {
         let (y, m, d) = cal().of(MIN_DAY + (i * s2) as i32);
         let (h, mi, s) = ((i % 24) as u32, (i % 60) as u32, (i * 7 % 60) as u32);
@@ -333,7 +333,7 @@ pub fn run(ctx: &Ctx, st: &mut Stats) {
         st.mark_exhaustive("(b) Time: all seconds x time-token spellings", &format!("all 86,400 seconds x {} single-token time pictures", time_pics.len()));
     }
     // (c) all microseconds x FF, FF1..FF9 on Time
-    let ustride = ctx.tier.pick(9973, 7, 1);
+    let ustride = ctx.tier.pick(9973, ctx.q(7, 1), 1);
     let fp = &ff_pics;
     ctx.par(st, "(c) Time: all microseconds x FF,FF1..FF9", true, 0, 1_000_000 / ustride, |st, i, _| {
         let us = (i * ustride) as u32;
